@@ -88,6 +88,7 @@ def parse_registry():
                     "mem_gb": int(d.get("mem", "12")),
                     "args": [a for a in d.get("args", "").split(",") if a],
                     "expect": d.get("expect", "pass"),  # "fail" for vacuity twins
+                    "pb": d.get("pb"),  # smaller sibling harness used to extract the solver's assignment
                     "claim": extra.get("claim", ""),
                     "bounds": extra.get("bounds", ""),
                     "funcs": [f.strip() for f in extra.get("funcs", "").split(",") if f.strip()],
@@ -349,7 +350,11 @@ def run_harness(h, scratch, tier, playback=False):
         if playback:
             cmd += PLAYBACK_FLAGS
         to = h["timeout"]
-        status, out, timed_out, wall = run_cmd(cmd, d, to, h["mem_gb"])
+        mem = h["mem_gb"]
+        if playback:
+            # trace generation needs about three times the memory; this pass runs alone
+            mem, to = min(50, max(36, 4 * mem)), 2 * to
+        status, out, timed_out, wall = run_cmd(cmd, d, to, mem)
         res = parse_kani(out)
         res.update({"name": h["name"], "wall_s": round(wall, 2), "exit": status, "timed_out": timed_out,
                     "cmd": " ".join(cmd)})
@@ -545,8 +550,19 @@ def cmd_check(prop, tier, only, jobs, keep):
                 continue
             # second pass with trace generation to obtain the solver's assignment
             log("  %s: failed check(s); re-running with concrete playback" % h["name"])
-            res2 = run_harness(h, scratch, tier, playback=True)
+            hp = h
+            if h.get("pb") and h["pb"] in reg:
+                # trace generation on the full-size harness would exceed memory: use its smaller
+                # sibling (same body, smaller input bound); the native replay decides either way
+                hp = reg[h["pb"]]
+                log("  %s: extracting the assignment from the smaller sibling %s" % (h["name"], hp["name"]))
+            res2 = run_harness(hp, scratch, tier, playback=True)
             res["playback"] = res2.get("playback", [])
+            if hp is not h:
+                res["candidates"] = [c for c in res2.get("candidates", [])] or res["candidates"]
+                replay_h = hp
+            else:
+                replay_h = h
             # candidate violations: replay each failed check natively against the real crates
             for chk in res["candidates"]:
                 pbs = [p for p in res["playback"] if p["kind"] != "cover" and p["desc"] == chk["desc"]]
@@ -556,7 +572,7 @@ def cmd_check(prop, tier, only, jobs, keep):
                     inconclusive.append("%s: failed check without a concrete assignment: %s" % (h["name"], chk["desc"][:100]))
                     continue
                 pb = pbs[0]
-                path, rep = save_replay(prop, h, pb, chk)
+                path, rep = save_replay(prop, replay_h, pb, chk)
                 rr = native_replay(rep, scratch)
                 chk["replay"] = {k: rr.get(k) for k in ("reproduced", "panic", "panic_at", "wall_s")}
                 chk["replay_path"] = path
